@@ -1,5 +1,6 @@
 //! vlib: shared machinery of the MLA property checks (see /verif/DESIGN.md).
 pub mod alloc;
+pub mod cli;
 pub mod consts;
 pub mod data;
 pub mod fault;
